@@ -30,20 +30,25 @@ Fixpoint spath (x : var) : path :=
   | VMember x' f => path_snoc (spath x') (SField f)
   | VSel x' sel => match sel_step sel with Some st => path_snoc (spath x') st | None => spath x' end
   end.
-Fixpoint flat_atom (a : atom) : bool :=
-  match a with
-  | AConst _ => true
-  | AVar x => flat_var x
-  | ANeg a' => flat_atom a'
-  | _ => false
-  end.
+(* okmeth: the fact methods that may appear (on a flat receiver): side-effect free and independent of the receiver's state *)
+Section FlatClass.
+Variable okmeth : string -> bool.
 Fixpoint flat_expr (e : expr) : bool :=
   match e with
   | EAtom a => flat_atom a
   | EParen _ e' => flat_expr e'
   | EBin _ l r => flat_expr l && flat_expr r
-  end.
-Fixpoint flat_elist (l : elist) : bool := match l with ENil => true | ECons e l' => flat_expr e && flat_elist l' end.
+  end
+with flat_atom (a : atom) : bool :=
+  match a with
+  | AConst _ => true
+  | AVar x => flat_var x
+  | ANeg a' => flat_atom a'
+  | AMethod (AVar r) f args => flat_var r && okmeth f && flat_elist args
+  | _ => false
+  end
+with flat_elist (l : elist) : bool :=
+  match l with ENil => true | ECons e l' => flat_expr e && flat_elist l' end.
 Definition flat_stmt (st : stmt) : bool :=
   match st with
   | SAssign x _ e => flat_var x && flat_expr e
@@ -52,25 +57,47 @@ Definition flat_stmt (st : stmt) : bool :=
   end.
 Definition flat_rule (r : rule) : bool := flat_expr (rwhen r) && forallb flat_stmt (rthen r).
 Definition flat_rules (rs : list rule) : bool := forallb flat_rule rs.
+End FlatClass.
+
+Lemma len_match : forall (A : Type) (f : string) (args : list val) (a b : A),
+  f <> "Len"%string -> (match f, args with "Len"%string, [] => a | _, _ => b end) = b.
+Proof.
+  intros A f args a b H.
+  destruct f as [|c1 f]; [reflexivity|].
+  destruct c1 as [[] [] [] [] [] [] [] []]; try reflexivity.
+  destruct f as [|c2 f]; [reflexivity|].
+  destruct c2 as [[] [] [] [] [] [] [] []]; try reflexivity.
+  destruct f as [|c3 f]; [reflexivity|].
+  destruct c3 as [[] [] [] [] [] [] [] []]; try reflexivity.
+  destruct f as [|c4 f]; [|reflexivity].
+  exfalso. apply H. reflexivity.
+Qed.
 
 Section Frame.
 Variable meth : list (string * fval) -> string -> list val -> res (option val * list (string * fval)).
+Variable okmeth : string -> bool.
+(* an admitted method returns the same thing whatever the state of its receiver, and is not the container built-in Len *)
+Hypothesis ok_stateless : forall f, okmeth f = true -> forall fs fs' args,
+  match meth fs f args, meth fs' f args with
+  | Ok (r, _), Ok (r', _) => r = r'
+  | Err, Err => True
+  | Panic, Panic => True
+  | _, _ => False
+  end.
+Hypothesis ok_not_len : forall f, okmeth f = true -> f <> "Len"%string.
 Notation fresh_expr := (fresh_expr meth).
 Notation fresh_atom := (fresh_atom meth).
 Notation fresh_var := (fresh_var meth).
-
-(* what "unchanged" means for a node: same from-scratch result, and if the result is a live view, the same view *)
-Definition same_view (fx fx' : facts) (r : res rval) : Prop :=
-  forall p, r = Ok (RRef p) -> scalar_of fx' (RRef p) = scalar_of fx (RRef p).
-Definition unchanged_var (fx fx' : facts) (y : var) : Prop :=
-  fresh_var fx' y = fresh_var fx y /\ same_view fx fx' (fresh_var fx y).
+Notation fresh_args := (fresh_args meth).
+Notation flat_expr := (flat_expr okmeth).
+Notation flat_atom := (flat_atom okmeth).
+Notation flat_elist := (flat_elist okmeth).
 
 (* the top constructor of a stored value: all that scalar_of and rval_of look at *)
 Definition shape (v : fval) : nat :=
-  match v with FV _ => 0 | FStruct _ => 1 | FPtr None => 2 | FPtr (Some _) => 3 | FSlice _ => 4 | FMap _ => 5 end%nat.
-
-Lemma shape_rval : forall p v v', shape v = shape v' -> v <> FV (VNil) -> shape v <> 0%nat -> rval_of p v' = rval_of p v.
-Proof. intros p v v' H _ Hn. destruct v as [x|fs|[t|]|xs|kvs]; destruct v' as [x'|fs'|[t'|]|xs'|kvs']; simpl in *; try discriminate; try reflexivity. congruence. Qed.
+  match v with
+  | FV _ => 0 | FStruct _ => 1 | FPtr None => 2 | FPtr (Some (FStruct _)) => 3 | FPtr (Some _) => 6 | FSlice _ => 4 | FMap _ => 5
+  end%nat.
 
 Lemma path_get_snoc : forall fx p s,
   path_get fx (path_snoc p s) = match path_get fx p with Ok v => step_get v s | Err => Err | Panic => Panic end.
@@ -152,13 +179,19 @@ Lemma view_kept_rval : forall fx fx' p, view_kept fx fx' p ->
   match path_get fx p with Ok c => Ok (rval_of p c) | Err => Err | Panic => Panic end.
 Proof.
   intros fx fx' p [E|(c & c' & A & B & C & D)]; [rewrite E; reflexivity|]. rewrite A, B. f_equal.
-  destruct c as [x|fs|[t|]|xs|kvs]; destruct c' as [x'|fs'|[t'|]|xs'|kvs']; simpl in *; try discriminate; try reflexivity. congruence.
+  destruct c as [x|fs|[t|]|xs|kvs]; destruct c' as [x'|fs'|[t'|]|xs'|kvs']; try destruct t; try destruct t'; simpl in *; try discriminate; try reflexivity; congruence.
 Qed.
 Lemma view_kept_scalar : forall fx fx' p, view_kept fx fx' p -> scalar_of fx' (RRef p) = scalar_of fx (RRef p).
 Proof.
   intros fx fx' p [E|(c & c' & A & B & C & D)]; unfold scalar_of; [rewrite E; reflexivity|]. rewrite A, B.
-  destruct c as [x|fs|[t|]|xs|kvs]; destruct c' as [x'|fs'|[t'|]|xs'|kvs']; simpl in *; try discriminate; try reflexivity. congruence.
+  destruct c as [x|fs|[t|]|xs|kvs]; destruct c' as [x'|fs'|[t'|]|xs'|kvs']; try destruct t; try destruct t'; simpl in *; try discriminate; try reflexivity; congruence.
 Qed.
+
+(* what "unchanged" means for a node: same from-scratch result, and if the result is a live view, the same view *)
+Definition same_view (fx fx' : facts) (r : res rval) : Prop :=
+  forall p, r = Ok (RRef p) -> view_kept fx fx' p.
+Definition unchanged_var (fx fx' : facts) (y : var) : Prop :=
+  fresh_var fx' y = fresh_var fx y /\ same_view fx fx' (fresh_var fx y).
 
 (* selecting with a literal: determined by the shape of the container and what the element's location shows *)
 Definition sel_val (st : step) : val :=
@@ -180,7 +213,7 @@ Proof.
   destruct Kp as [E|(c & c' & A & B & C & D)]; [rewrite E in *|rewrite A, B in *].
   - reflexivity.
   - destruct st as [f|i|k]; [contradiction| |]; simpl in *;
-      destruct c as [x|fs|[t|]|xs|kvs]; destruct c' as [x'|fs'|[t'|]|xs'|kvs']; simpl in C, D; try discriminate; try congruence; try reflexivity.
+      destruct c as [x|fs|[t|]|xs|kvs]; destruct c' as [x'|fs'|[t'|]|xs'|kvs']; try destruct t; try destruct t'; simpl in C, D; try discriminate; try congruence; try reflexivity.
     + destruct (nth_z xs' i); destruct (nth_z xs i); simpl in R; try discriminate; congruence.
     + destruct (field_get kvs' k); destruct (field_get kvs k); simpl in R; try discriminate; congruence.
 Qed.
@@ -328,7 +361,7 @@ Proof.
     assert (E: fresh_var fx' (VName r) = fresh_var fx (VName r)).
     { rewrite !fresh_var_unfold. pose proof (view_kept_rval _ _ _ K) as R. unfold path_get in R. simpl in R.
       destruct (alookup r fx') as [v'|]; destruct (alookup r fx) as [v|]; try (inversion R; fail); auto. }
-    split; [exact E|]. intros p Hp. rewrite (fresh_var_spath fx (VName r) eq_refl p Hp). apply view_kept_scalar. exact K.
+    split; [exact E|]. intros p Hp. rewrite (fresh_var_spath fx (VName r) eq_refl p Hp). exact K.
   - assert (Hv': forall z, In z (vars_var y') -> view_kept fx fx' (spath z)) by (intros; apply Hv; right; assumption).
     destruct (IH Hf Hv') as [A B].
     pose proof (Hv (VMember y' g) (or_introl eq_refl)) as K. simpl in K.
@@ -338,7 +371,7 @@ Proof.
       destruct ry as [x|q]; [reflexivity|]. rewrite (fresh_var_spath fx y' Hf q Ey).
       rewrite !child_field_path. apply view_kept_rval. exact K. }
     split; [exact E|]. intros p Hp.
-    rewrite (fresh_var_spath fx (VMember y' g) Hf p Hp). apply view_kept_scalar. exact K.
+    rewrite (fresh_var_spath fx (VMember y' g) Hf p Hp). exact K.
   - pose proof Hf as Hfull. apply andb_prop in Hf. destruct Hf as [Hf Hs].
     destruct (sel_step sel) as [st|] eqn:Es; try discriminate.
     assert (Hv': forall z, In z (vars_var y') -> view_kept fx fx' (spath z)).
@@ -355,7 +388,37 @@ Proof.
       apply Hv'. destruct y'; cbn [vars_var]; left; reflexivity. }
     split; [exact E|]. intros p Hp.
     assert (Hfull': flat_var (VSel y' sel) = true) by (simpl; rewrite Es, Hf; reflexivity).
-    rewrite (fresh_var_spath fx (VSel y' sel) Hfull' p Hp). simpl spath. rewrite Es. apply view_kept_scalar. exact K.
+    rewrite (fresh_var_spath fx (VSel y' sel) Hfull' p Hp). simpl spath. rewrite Es. exact K.
+Qed.
+
+(* ---- an admitted method call on a receiver whose view is kept ---- *)
+Lemma fresh_call_frame : forall fx fx' recv f args,
+  okmeth f = true -> (forall p, recv = RRef p -> view_kept fx fx' p) ->
+  fresh_call meth fx' recv f args = fresh_call meth fx recv f args.
+Proof.
+  intros fx fx' recv f args Hok Hv. unfold fresh_call, receiver_kind.
+  destruct recv as [v|p]; [reflexivity|].
+  pose proof (ok_not_len f Hok) as Hl.
+  destruct (Hv p eq_refl) as [E|(c & c' & A & B & C & D)]; [rewrite E; reflexivity|]. rewrite A, B.
+  destruct c as [x|fs|[t|]|xs|kvs]; destruct c' as [x'|fs'|[t'|]|xs'|kvs'];
+    try (destruct t as [tx|tfs|tp|txs|tkvs]); try (destruct t' as [tx'|tfs'|tp'|txs'|tkvs']);
+    simpl in C, D; try discriminate; try congruence; try reflexivity;
+    rewrite ?(len_match _ f args _ _ Hl); try reflexivity.
+  (* both are structs behind a pointer: the method does not look at the fields *)
+  pose proof (ok_stateless f Hok tfs' tfs args) as Hs.
+  destruct (meth tfs' f args) as [[r1 s1]| |]; destruct (meth tfs f args) as [[r2 s2]| |]; try contradiction; subst; reflexivity.
+Qed.
+
+Lemma fresh_call_not_ref : forall fx recv f args p, okmeth f = true -> fresh_call meth fx recv f args <> Ok (RRef p).
+Proof.
+  intros fx recv f args p Hok H. unfold fresh_call, receiver_kind in H.
+  pose proof (ok_not_len f Hok) as Hl.
+  destruct recv as [v|q].
+  - destruct v; try discriminate. destruct (string_func s f args); discriminate.
+  - destruct (path_get fx q) as [c| |]; try discriminate.
+    destruct c as [x|fs|[t|]|xs|kvs]; try (destruct t as [tx|tfs|tp|txs|tkvs]); try discriminate;
+      rewrite ?(len_match _ f args _ _ Hl) in H; try discriminate.
+    destruct (meth tfs f args) as [[r1 s1]| |]; discriminate.
 Qed.
 
 (* ---- expressions: unchanged variables give unchanged values ---- *)
@@ -366,7 +429,7 @@ Definition unchanged_expr (e : expr) : Prop := fresh_expr fx' e = fresh_expr fx 
 Definition unchanged_atom (a : atom) : Prop := fresh_atom fx' a = fresh_atom fx a /\ same_view fx fx' (fresh_atom fx a).
 
 Lemma scalar_same : forall r v, same_view fx fx' r -> r = Ok v -> scalar_of fx' v = scalar_of fx v.
-Proof. intros r v H E. destruct v as [x|p]; [reflexivity|]. apply H. exact E. Qed.
+Proof. intros r v H E. destruct v as [x|p]; [reflexivity|]. apply view_kept_scalar. apply H. exact E. Qed.
 
 Lemma negate_view : forall r, same_view fx fx' r -> same_view fx fx' (match r with Ok v => Ok (negate v) | r0 => r0 end).
 Proof.
@@ -375,14 +438,20 @@ Proof.
   - inversion E; subst. apply H. reflexivity.
 Qed.
 
+Definition unchanged_args (l : elist) : Prop :=
+  fresh_args fx' l = fresh_args fx l /\
+  (forall vs, fresh_args fx l = Ok vs -> map (scalar_of fx') vs = map (scalar_of fx) vs).
+
 Lemma flat_frame :
   (forall e, flat_expr e = true -> (forall y, In y (vars_expr e) -> flat_var y = true -> unchanged_var fx fx' y) -> unchanged_expr e) /\
   (forall a, flat_atom a = true -> (forall y, In y (vars_atom a) -> flat_var y = true -> unchanged_var fx fx' y) -> unchanged_atom a).
 Proof.
   enough (H: (forall e, flat_expr e = true -> (forall y, In y (vars_expr e) -> flat_var y = true -> unchanged_var fx fx' y) -> unchanged_expr e) /\
              (forall a, flat_atom a = true -> (forall y, In y (vars_atom a) -> flat_var y = true -> unchanged_var fx fx' y) -> unchanged_atom a) /\
-             (forall x : var, True) /\ (forall l : elist, True)) by (destruct H as (A & B & _); auto).
-  apply syntax_mutind; try (intros; exact I); unfold unchanged_expr, unchanged_atom.
+             (forall x : var, True) /\
+             (forall l, flat_elist l = true -> (forall y, In y (vars_elist l) -> flat_var y = true -> unchanged_var fx fx' y) -> unchanged_args l))
+    by (destruct H as (A & B & _); auto).
+  apply syntax_mutind; try (intros; exact I); unfold unchanged_expr, unchanged_atom, unchanged_args.
   - (* EAtom *) intros a IH Hf Hv. rewrite !fresh_expr_unfold. apply IH; auto.
   - (* EParen *) intros n e IH Hf Hv. simpl in Hf. destruct (IH Hf Hv) as [A B].
     rewrite (fresh_expr_unfold meth fx'), (fresh_expr_unfold meth fx). rewrite A. split; [reflexivity|].
@@ -415,19 +484,50 @@ Proof.
   - (* AVar *) intros x IH Hf Hv. rewrite !fresh_atom_unfold. simpl in Hf. apply Hv; auto.
     cbn [vars_atom]. destruct x as [n|x' n|x' s]; cbn [vars_var]; left; reflexivity.
   - (* AFunc *) intros f l IH Hf. discriminate.
-  - (* AMethod *) intros a IHa f l IHl Hf. discriminate.
+  - (* AMethod *) intros a IHa f l IHl Hf Hv. simpl in Hf.
+    destruct a as [c|r|f0 l0|a0 f0 l0|a0 n0|a0 e0|a0]; try discriminate.
+    apply andb_prop in Hf. destruct Hf as [Hf Hfl]. apply andb_prop in Hf. destruct Hf as [Hfr Hok].
+    assert (Hva: forall y, In y (vars_atom (AVar r)) -> flat_var y = true -> unchanged_var fx fx' y)
+      by (intros; apply Hv; auto; cbn [vars_atom]; apply in_or_app; auto).
+    assert (Hvl: forall y, In y (vars_elist l) -> flat_var y = true -> unchanged_var fx fx' y)
+      by (intros; apply Hv; auto; cbn [vars_atom]; apply in_or_app; auto).
+    destruct (IHa Hfr Hva) as [Aa Ba]. destruct (IHl Hfl Hvl) as [Al Bl].
+    rewrite (fresh_atom_unfold meth fx'), (fresh_atom_unfold meth fx). rewrite Aa, Al.
+    destruct (Fresh.fresh_atom meth fx (AVar r)) as [recv| |] eqn:Er; try (split; [reflexivity|intros p E; discriminate]).
+    destruct (Fresh.fresh_args meth fx l) as [vs| |] eqn:El; try (split; [reflexivity|intros p E; discriminate]).
+    rewrite (Bl vs eq_refl).
+    split.
+    + apply fresh_call_frame; auto. intros p ->. apply Ba. reflexivity.
+    + intros p E. exfalso. exact (fresh_call_not_ref fx recv f _ p Hok E).
   - (* AMember *) intros a IH n Hf. discriminate.
   - (* ASel *) intros a IHa e IHe Hf. discriminate.
   - (* ANeg *) intros a IH Hf Hv. simpl in Hf. destruct (IH Hf Hv) as [A B].
     rewrite (fresh_atom_unfold meth fx'), (fresh_atom_unfold meth fx). rewrite A. split; [reflexivity|].
     intros p E. apply B. destruct (fresh_atom fx a) as [v| |]; try discriminate.
     destruct v as [x|q]; simpl in E; [destruct x; discriminate|exact E].
+  - (* ENil *) intros Hf Hv. rewrite !fresh_args_unfold. split; [reflexivity|]. intros vs E. inversion E. reflexivity.
+  - (* ECons *) intros e IHe l IHl Hf Hv. simpl in Hf. apply andb_prop in Hf. destruct Hf as [Hfe Hfl].
+    assert (Hve: forall y, In y (vars_expr e) -> flat_var y = true -> unchanged_var fx fx' y)
+      by (intros; apply Hv; auto; simpl; apply in_or_app; auto).
+    assert (Hvl: forall y, In y (vars_elist l) -> flat_var y = true -> unchanged_var fx fx' y)
+      by (intros; apply Hv; auto; simpl; apply in_or_app; auto).
+    destruct (IHe Hfe Hve) as [Ae Be]. destruct (IHl Hfl Hvl) as [Al Bl].
+    rewrite (fresh_args_unfold meth fx'), (fresh_args_unfold meth fx). rewrite Ae, Al. split; [reflexivity|].
+    intros vs E. destruct (Fresh.fresh_expr meth fx e) as [v| |] eqn:Ee; try discriminate.
+    destruct (Fresh.fresh_args meth fx l) as [vs0| |] eqn:El; try discriminate. inversion E; subst.
+    simpl. rewrite (scalar_same _ v Be eq_refl), (Bl vs0 eq_refl). reflexivity.
 Qed.
 End ExprFrame.
 
 End Frame.
 
 (* ---- every node of a flat rule set is flat ---- *)
+Section Nodes.
+Variable okmeth : string -> bool.
+Notation flat_expr := (flat_expr okmeth).
+Notation flat_atom := (flat_atom okmeth).
+Notation flat_elist := (flat_elist okmeth).
+Notation flat_rules := (flat_rules okmeth).
 Definition flat_node (n : node) : bool :=
   match n with
   | NdE e => flat_expr e
@@ -440,9 +540,15 @@ Lemma child_flat : forall c p, child c p -> flat_node p = true -> flat_node c = 
 Proof.
   intros c p H. destruct H; simpl; intros Hf; try discriminate; auto;
     try (apply andb_prop in Hf; destruct Hf; assumption).
-  (* the literal selector of a flat variable is a flat expression *)
-  apply andb_prop in Hf. destruct Hf as [_ Hs].
-  destruct e as [a| |]; try discriminate. destruct a as [c0| | | | | |]; try discriminate. reflexivity.
+  - (* the receiver of an admitted method call *)
+    destruct a as [c0|r|f0 l0|a0 f0 l0|a0 n0|a0 e0|a0]; try discriminate.
+    apply andb_prop in Hf. destruct Hf as [Hf _]. apply andb_prop in Hf. destruct Hf as [Hf _]. exact Hf.
+  - (* its arguments *)
+    destruct a as [c0|r|f0 l0|a0 f0 l0|a0 n0|a0 e0|a0]; try discriminate.
+    apply andb_prop in Hf. destruct Hf as [_ Hf]. exact Hf.
+  - (* the literal selector of a flat variable is a flat expression *)
+    apply andb_prop in Hf. destruct Hf as [_ Hs].
+    destruct e as [a| |]; try discriminate. destruct a as [c0| | | | | |]; try discriminate. reflexivity.
 Qed.
 
 Lemma flat_root : forall rules r n, flat_rules rules = true -> In r rules -> In n (rule_roots r) -> flat_node n = true.
@@ -488,7 +594,9 @@ Lemma flat_vars_closed :
 Proof.
   enough (H: (forall e, flat_expr e = true -> forall y, In y (vars_expr e) -> incl (vars_var y) (vars_expr e)) /\
              (forall a, flat_atom a = true -> forall y, In y (vars_atom a) -> incl (vars_var y) (vars_atom a)) /\
-             (forall x : var, True) /\ (forall l : elist, True)) by (destruct H as (A & B & _); auto).
+             (forall x : var, True) /\
+             (forall l, flat_elist l = true -> forall y, In y (vars_elist l) -> incl (vars_var y) (vars_elist l)))
+    by (destruct H as (A & B & _); auto).
   apply syntax_mutind; try (intros; exact I).
   - intros a IH Hf y H. simpl in *. eauto.
   - intros n e IH Hf y H. simpl in *. eauto.
@@ -499,17 +607,37 @@ Proof.
   - intros c Hf y H. inversion H.
   - intros x _ Hf y H. simpl in *. apply vars_var_closed; auto.
   - intros f l _ Hf. discriminate.
-  - intros a _ f l _ Hf. discriminate.
+  - intros a IHa f l IHl Hf y H. simpl in Hf.
+    destruct a as [c0|r|f0 l0|a0 f0 l0|a0 n0|a0 e0|a0]; try discriminate.
+    apply andb_prop in Hf. destruct Hf as [Hf Hfl]. apply andb_prop in Hf. destruct Hf as [Hfr _].
+    cbn [vars_atom] in *. apply in_app_or in H. destruct H as [H|H].
+    + apply incl_appl. apply (IHa Hfr y H).
+    + apply incl_appr. apply (IHl Hfl y H).
   - intros a _ n Hf. discriminate.
   - intros a _ e _ Hf. discriminate.
   - intros a IH Hf y H. simpl in *. eauto.
+  - intros Hf y H. inversion H.
+  - intros e IHe l IHl Hf y H. simpl in *. apply andb_prop in Hf. destruct Hf as [A B].
+    apply in_app_or in H. destruct H as [H|H].
+    + apply incl_appl. eauto.
+    + apply incl_appr. eauto.
 Qed.
+End Nodes.
 
 Section Dependency.
 Variable rules : list rule.
 Variable meth : list (string * fval) -> string -> list val -> res (option val * list (string * fval)).
 Variable mutating : string -> bool.
-Hypothesis Hflat : flat_rules rules = true.
+Variable okmeth : string -> bool.
+Hypothesis ok_stateless : forall f, okmeth f = true -> forall fs fs' args,
+  match meth fs f args, meth fs' f args with
+  | Ok (r, _), Ok (r', _) => r = r'
+  | Err, Err => True
+  | Panic, Panic => True
+  | _, _ => False
+  end.
+Hypothesis ok_not_len : forall f, okmeth f = true -> f <> "Len"%string.
+Hypothesis Hflat : flat_rules okmeth rules = true.
 
 (* a successful write to a flat variable is a path_set at its location (or the replacement of a top-level entry) *)
 Lemma write_flat : forall fx x nv fx' t,
@@ -576,20 +704,20 @@ Qed.
 
 Theorem flat_dependency_hypothesis : dependency_hypothesis rules meth mutating.
 Proof.
-  intros x fx t nv fx' HNV Hp Ht Hw. pose proof (in_kb_flat rules _ Hflat HNV) as Hx. simpl in Hx.
+  intros x fx t nv fx' HNV Hp Ht Hw. pose proof (in_kb_flat okmeth rules _ Hflat HNV) as Hx. simpl in Hx.
   assert (Hframe: forall y, flat_var y = true -> ~ In x (vars_var y) -> unchanged_var meth fx fx' y)
     by (eapply flat_write_frame; eauto).
-  destruct flat_vars_closed as [Ce Ca].
+  destruct (flat_vars_closed okmeth) as [Ce Ca].
   split.
-  - intros e HNE _ Hc. pose proof (in_kb_flat rules _ Hflat HNE) as He. simpl in He.
+  - intros e HNE _ Hc. pose proof (in_kb_flat okmeth rules _ Hflat HNE) as He. simpl in He.
     assert (Hn: ~ In x (vars_expr e)).
     { intro Hin. rewrite (expr_contains_its_vars e x Hin) in Hc. discriminate. }
-    destruct (flat_frame meth fx fx') as [Fe _]. apply (Fe e He).
+    destruct (flat_frame meth okmeth ok_stateless ok_not_len fx fx') as [Fe _]. apply (Fe e He).
     intros y Hy Hfy. apply Hframe; auto. intro Hin. apply Hn. eapply Ce; eauto.
-  - intros a HNA _ Hc. pose proof (in_kb_flat rules _ Hflat HNA) as Ha. simpl in Ha.
+  - intros a HNA _ Hc. pose proof (in_kb_flat okmeth rules _ Hflat HNA) as Ha. simpl in Ha.
     assert (Hn: ~ In x (vars_atom a)).
     { intro Hin. rewrite (atom_contains_its_vars a x Hin) in Hc. discriminate. }
-    destruct (flat_frame meth fx fx') as [_ Fa]. apply (Fa a Ha).
+    destruct (flat_frame meth okmeth ok_stateless ok_not_len fx fx') as [_ Fa]. apply (Fa a Ha).
     intros y Hy Hfy. apply Hframe; auto. intro Hin. apply Hn. eapply Ca; eauto.
 Qed.
 
